@@ -86,7 +86,8 @@ Block(b) == [has |-> TRUE, body |-> b]
 
 (* Denotation: the document a program produces when nothing fails, and how many expressions /
    leaf components it evaluates.  Threads the children slot exactly as the context value does
-   (a generated component reads and clears it; templ.Flush reads it without clearing).      *)
+   (a generated component reads and clears it; so does templ.Flush since the fix "Flush must clear
+   the children it renders from the context").                                               *)
 RECURSIVE DOps(_, _, _)
 DInterp(ops, s) == DOps(ops, s, NoChild)              \* entry: mine := slot; slot := none
 DEmpty(s) == [out |-> <<>>, slot |-> s, ne |-> 0, nl |-> 0]
@@ -100,7 +101,7 @@ DOps(ops, mine, s) ==
                     [] o.k = "call" -> DInterp(o.a, s)
                     [] o.k = "cb"   -> DInterp(o.a, Block(o.b))
                     [] o.k = "slot" -> IF mine.has THEN DInterp(mine.body, s) ELSE DEmpty(s)
-                    [] o.k = "flush" -> DInterp(o.a, Block(o.a))
+                    [] o.k = "flush" -> DInterp(o.a, NoChild)
                     [] o.k = "join" -> LET x == DInterp(o.a, s) IN DThen(x, DInterp(o.b, x.slot))
          IN DThen(h, DOps(Tail(ops), mine, h.slot))
 Denote(p) == DInterp(p, NoChild)
@@ -320,17 +321,19 @@ EnterCall ==
     /\ UNCH(<<pev, cfg, run, phase, plan, bufs, cur, pool, nfresh, W, cancelled, evals, leafs, first, late, hist>>)
 
 \* { children... } renders the block this template instance received (templ.NopComponent if none);
-\* templ.Flush renders templ.GetChildren(ctx) without clearing the slot
+\* templ.Flush takes templ.GetChildren(ctx) out of the context value (read, then ClearChildren) and renders it
 RenderChildren ==
     /\ \/ /\ AtOp("slot")
           /\ IF Top.mine.has THEN stack' = Push([Top EXCEPT !.pc = "ret"], BlockFrame(Top.mine.body))
                              ELSE stack' = SetTop([Top EXCEPT !.pc = "ret"])
+          /\ UNCH(slot)
        \/ /\ AtOp("kids")
           /\ IF slot.has THEN stack' = Push([Top EXCEPT !.pc = "ret"], BlockFrame(slot.body))
                          ELSE stack' = SetTop([Top EXCEPT !.pc = "ret"])
+          /\ slot' = NoChild
     /\ ret' = "nil"
     /\ lbl' = "RenderChildren"
-    /\ UNCH(<<pev, cfg, run, phase, plan, bufs, cur, pool, nfresh, W, slot, cancelled, evals, leafs, first, late, hist>>)
+    /\ UNCH(<<pev, cfg, run, phase, plan, bufs, cur, pool, nfresh, W, cancelled, evals, leafs, first, late, hist>>)
 
 \* runtime.Buffer.Flush on the render's buffer, then http.Flusher.Flush of the underlying writer
 RuntimeFlush == LET w == bufs[cur].wr
